@@ -70,6 +70,12 @@ def build(P):
         import prof_flow
         cm = prof_flow.CALL_MATRIX()
         yield ("call-matrix", [Case(id="C01-call-%d" % i, prog=(sp + "\n").encode(), meta=dict(units=["call/%d" % i])) for i, sp in enumerate(cm)])
+        # (a3) the cast matrix of C17 (every cast target x values of every type), normal and sanitizer build, REPL and file mode
+        import prof_expr
+        cmx = prof_expr.CAST_MATRIX()
+        yield ("cast-matrix", [repl_case("C01-cast-%d" % k, prof_expr.CAST_SETUP + ch, meta=dict(units=ch)) for k, ch in enumerate(chunks(cmx, 300))]
+                              + [Case(id="C01-castf-%d" % i, prog=("\n".join(prof_expr.CAST_SETUP + ["OUTPUT \"before\"", "OUTPUT " + e if "<-" not in e else e, "OUTPUT \"after\""]) + "\n").encode(), meta=dict(units=["castf/%d" % i]))
+                                 for i, e in enumerate(cmx) if "<-" not in e and (i % 3 == 0 or tier == "thorough")])
         # (b) token sequences up to length 3 over the vocabulary, as REPL entries
         seqs = [[a] for a in VOCAB] + [[a, b] for a in VOCAB for b in VOCAB]
         n3 = sizes(tier, 12000, 400000)
@@ -445,8 +451,9 @@ def build(P):
         for kind, fl in FAILING.items():
             for f in fl:
                 k += 1
-                cases.append(repl_case("C12-fail-%d" % k, ESTABLISH + [f] + PROBE + ["CLOSEFILE \"keep.txt\""], meta=dict(units=[f], role="survive", fail=f)))
+                # (the base session first: its output is what the oracle of the failing session compares with)
                 cases.append(repl_case("C12-base-%d" % k, ESTABLISH + PROBE + ["CLOSEFILE \"keep.txt\""], meta=dict(units=["base " + f], role="survive-base", fail=f)))
+                cases.append(repl_case("C12-fail-%d" % k, ESTABLISH + [f] + PROBE + ["CLOSEFILE \"keep.txt\""], meta=dict(units=[f], role="survive", fail=f, noshrink=True)))
         yield ("survival", cases)
         # RUNFILE between entries, '?' and keyword-prefixed identifiers
         prog = b"OUTPUT \"from file\"\nfv <- 5\nOUTPUT fv\n"
